@@ -17,11 +17,13 @@ assert rc == 0, out
 res = {"property": prop, "name": name}
 try:
     # demo without the change
+    demotxt = open(os.path.join(mdir, "demo.sh")).read() if os.path.exists(os.path.join(mdir, "demo.sh")) else ""
+    sub = "clientip" if "clientip/" in demotxt else "."
     for f in os.listdir(mdir):
         if f.endswith("_test.go") or (f.endswith(".go") and f != "patch.diff"):
-            shutil.copy(os.path.join(mdir, f), wt)
+            shutil.copy(os.path.join(mdir, f), os.path.join(wt, sub))
     demo = open(os.path.join(mdir, "demo.sh")).read() if os.path.exists(os.path.join(mdir, "demo.sh")) else "go test -vet=off -count=1 -run TestMutDemo ."
-    democmd = "cd %s && go test -vet=off -count=1 -run 'TestMutDemo|MutDemo' . 2>&1 | tail -15" % wt
+    democmd = "cd %s && go test -vet=off -count=1 -run 'TestMutDemo|MutDemo' ./%s 2>&1 | tail -15" % (wt, sub)
     rc0, out0 = sh(democmd)
     res["demo_without_change"] = "PASS" if "ok " in out0 and "FAIL" not in out0 else "FAIL"
     rc, out = sh("git -C %s apply %s" % (wt, os.path.join(mdir, "patch.diff")))
@@ -30,9 +32,9 @@ try:
     res["demo_with_change"] = "FAIL" if "FAIL" in out1 else "PASS"
     res["demo_output_with_change"] = out1[-1500:]
     # suite with the change (without the demo file)
-    for f in os.listdir(wt):
+    for f in os.listdir(os.path.join(wt, sub)):
         if f.startswith("zz_mutdemo"):
-            os.remove(os.path.join(wt, f))
+            os.remove(os.path.join(wt, sub, f))
     rc2, out2 = sh("cd %s && go build ./... && go test -vet=off -count=1 ./... 2>&1 | tail -12" % wt)
     res["suite_with_change"] = "PASS" if "FAIL" not in out2 and rc2 == 0 else "FAIL"
     checks = {}
